@@ -752,26 +752,10 @@ fn public_key_checksums(ctx: &Ctx) {
     }
 }
 
-/// Names around and beyond the length limit built from 1..4-byte characters with every small ASCII
-/// prefix (so that every byte offset up to the limit falls inside a multi-byte character in some case).
-pub fn boundary_names() -> Vec<String> {
-    let mut v = Vec::new();
-    for ch in ["\u{e9}", "\u{20ac}", "\u{4e2d}", "\u{1f511}", "x"] {
-        let w = ch.len();
-        for prefix in 0..=4usize {
-            for target in [120usize, 126, 127, 128, 129, 130, 131, 132, 160, 200, 300, 1000] {
-                let n = (target.saturating_sub(prefix) + w - 1) / w;
-                v.push(format!("{}{}", "a".repeat(prefix), ch.repeat(n)));
-            }
-        }
-    }
-    v
-}
-
 fn boundary_name_block(ctx: &Ctx) {
     let mut rng = Rng::fork(ctx.seed, "C17-boundary");
     let pk = refspec::encode_pk(&refspec::pubkey_of(&rng.arr32()));
-    for name in boundary_names() {
+    for name in crate::c17cli::boundary_names() {
         let text = format!("[Key]\nName = {}\nPublicKey = {}\n", name, pk);
         ctx.eval();
         let valid = !name.is_empty() && name.len() <= 128;
@@ -801,48 +785,6 @@ fn boundary_name_block(ctx: &Ctx) {
             Ok(ok) if ok == (!name.trim().is_empty() && name.trim().len() <= 128) => {}
             Ok(_) => ctx.violation("C17:key-generation-name-check-disagrees-with-the-128-byte-limit", json!({"name_bytes": name.len(), "name": name})),
             Err(p) => ctx.violation(&format!("C17:parser-panic:{}", panic_site(&p)), json!({"name": name})),
-        }
-    }
-}
-
-/// Keyrings beyond 64 KiB read by the real binary: the last entries count like the first ones.
-fn cli_large_keyrings(ctx: &Ctx) {
-    let mut rng = Rng::fork(ctx.seed, "C17-large");
-    let wd = WorkDir::new("c17l");
-    let alice = crate::cli::Ident::new("alice", "apw", &mut rng);
-    let last = crate::cli::Ident::new("zz-last-entry", "zpw", &mut rng);
-    for (what, contacts) in [("about 80 KiB", 900usize), ("about 200 KiB", 2300)] {
-        let mut text = alice.entry(true);
-        for i in 0..contacts {
-            text.push_str(&format!("\n[Key]\nName = contact-{:05}\nPublicKey = {}\n", i, refspec::encode_pk(&refspec::pubkey_of(&rng.arr32()))));
-        }
-        let ok_text = format!("{}\n{}", text, last.entry(true));
-        wd.write("big.txt", ok_text.as_bytes());
-        wd.write("m.txt", b"to the last entry");
-        let o = Cmd::new(&wd.path, &["encrypt", "m.txt", "-t", &last.name, "-f", "alice", "-k", "big.txt", "--env-pass"]).pass("apw").run();
-        ctx.eval();
-        let good = o.exit == Exit::Code(0) && matches!(refspec::decode_key_file(&o.stdout, &last.sk, &last.pk), Ok(d) if d.body.complete() && d.sender == alice.pk);
-        if good {
-            ctx.seen("cli: entry at the end of a large keyring is found and used");
-            ctx.distinct(&format!("large|ok|{}", what));
-        } else {
-            ctx.violation("C17:cli:entry-at-the-end-of-a-large-keyring-not-usable", json!({"keyring_bytes": ok_text.len(), "exit": o.exit.describe(), "stderr": o.stderr_s()}));
-        }
-        // the in-process parser on the same text (the tool must agree with it)
-        ctx.eval();
-        if !matches!(guarded(|| Keyring::new(&ok_text).map(|k| k.get_key(&last.name).is_some())), Ok(Ok(true))) {
-            ctx.violation("C17:rejected-a-well-formed-keyring", json!({"keyring_bytes": ok_text.len()}));
-        }
-        // a duplicate name hidden at the very end must still be refused
-        let dup_text = format!("{}\n[Key]\nName = alice\nPublicKey = {}\n", ok_text, refspec::encode_pk(&refspec::pubkey_of(&rng.arr32())));
-        wd.write("dup.txt", dup_text.as_bytes());
-        let o = Cmd::new(&wd.path, &["encrypt", "m.txt", "-t", "contact-00001", "-f", "alice", "-k", "dup.txt", "--env-pass"]).pass("apw").run();
-        ctx.eval();
-        if o.exit == Exit::Code(1) && o.has_error_line() {
-            ctx.seen("cli: duplicate name at the end of a large keyring is refused");
-            ctx.distinct(&format!("large|dup|{}", what));
-        } else {
-            ctx.violation("C17:cli:accepted-a-keyring-that-must-be-rejected:duplicate name at the end of a large file", json!({"keyring_bytes": dup_text.len(), "exit": o.exit.describe(), "stderr": o.stderr_s()}));
         }
     }
 }
@@ -888,7 +830,7 @@ pub fn run(ctx: &Ctx) {
     public_key_checksums(ctx);
     no_crash_on_text(ctx);
     boundary_name_block(ctx);
-    cli_large_keyrings(ctx);
+    crate::c17cli::cli_lanes(ctx);
     ctx.require("cli: entry at the end of a large keyring", 2);
     ctx.require("cli: duplicate name at the end of a large keyring", 2);
     ctx.require("over-long multi-byte name rejected without a crash", 50);
